@@ -38,6 +38,10 @@ CLAIMED['C19'] = dict(engine='E1/E5', technique='Coq proof over R of Rect.inters
     text='Proved: Rect.intersection returns the overlap exactly when it has positive area (else None), Rect.union is the least box; relative to the engine contract a dropped shape had nothing inside the viewBox and a kept shape is either untouched (entirely inside) or its interior is exactly subject /\\ viewBox /\\ bounds with paint, opacity and id kept and rule reset to nonzero. Tightness of Skia bounds, paint order and the group cleanup are decided by the differential run (identical outputs with the same engine) and the sample-point judge.',
     note='Engine contract assumed (ops, bounds contain interior, rectangle path encloses the open rectangle); Clip.v hand model validated on documents with shapes inside/outside/across every side and corner.',
     design='§7 C19')
+CLAIMED['C20'] = dict(engine='E6', technique='Coq proof, for arbitrary candidate generators, that every exit of the reuse search is guarded by the verification step (incl. the rounding search); hand model with candidates as coded checked against the implementation; spec-side outline judge',
+    text='Partial. Proved: any Some(A) returned is the identity for almost-equal shapes or has passed _try_affine, i.e. the transformed first outline agrees with the second command for command within the tolerance (almost_equals characterised as letter/arity/argument-wise closeness); identical shapes give the identity; nothing is reported when no matrix verifies. The geometric reading of apply_affine and "an exact translation is always found" are judged on the implementation on every run.',
+    note='Reuse.v is a hand model (arc-free paths) validated against the implementation incl. candidate matrices; atan2/sqrt from CPython in the differential run.',
+    design='§7 C20')
 PENDING = {}
 
 def main():
